@@ -433,3 +433,30 @@ func buildMatured(p *pair, env0 *stateEnv) (*stateEnv, string) {
 	b.settle() // the token contract mints what the updates asked for, the liquidity contract receives it
 	return env, b.fail
 }
+
+// buildLate: nothing was staked / no sentinel was registered during epoch 0; the chain jumps to one hour after the end
+// of epoch 0 WITHOUT any Update having settled it, and only then the first stake and the first sentinel are created.
+// The contracts now hold entries whose weight in the epoch that is about to be settled is zero.
+func buildLate(p *pair, env0 *stateEnv) (*stateEnv, string) {
+	env := env0.clone()
+	env.Base = "late-entries"
+	env.HasEntries = false
+	b := &builder{p: p, env: env}
+	n := p.P
+	skip := int((genesisT+25*3600-n.Frontier().Timestamp.Unix())/10) - 1
+	if err := n.ProduceMomentumOnly(skip); err != nil {
+		return env, "late-entries: " + err.Error()
+	}
+	if _, err := drainInboxes(n); err != nil {
+		return env, err.Error()
+	}
+	owner := actors[aOwner].Key
+	add := func(c string, h types.Hash) { env.IDs[c] = append([]types.Hash{h}, env.IDs[c]...) }
+	add("stake", b.send(owner, types.StakeContract, znn, big8(10), definition.ABIStake.PackMethodPanic(definition.StakeMethodName, int64(constants.StakeTimeMinSec))).Hash)
+	b.send(owner, types.SentinelContract, qsr, big8(50000), definition.ABISentinel.PackMethodPanic(definition.DepositQsrMethodName))
+	b.step()
+	b.send(owner, types.SentinelContract, znn, new(big.Int).Set(constants.SentinelZnnRegisterAmount), definition.ABISentinel.PackMethodPanic(definition.RegisterSentinelMethodName))
+	b.step()
+	b.settle()
+	return env, b.fail
+}
